@@ -496,47 +496,13 @@ impl<'a> Ord for BorrowedTerm<'a> {
                         Ordering::Equal
                     })
                 }
-                (BorrowedTerm::Nil, BorrowedTerm::Nil) => Ordering::Equal,
-                (BorrowedTerm::List(a), BorrowedTerm::List(b)) => {
-                    for (x, y) in a.iter().zip(b.iter()) {
-                        match x.cmp(y) {
-                            Ordering::Equal => continue,
-                            other => return other,
-                        }
+                // [] < non-empty lists; proper and improper lists compare element by element and
+                // then by what is left of each: the tail, or the remaining elements
+                (a, b) if list_parts(a).is_some() && list_parts(b).is_some() => {
+                    match (list_parts(a), list_parts(b)) {
+                        (Some((ae, at)), Some((be, bt))) => compare_list_like(ae, at, be, bt),
+                        _ => Ordering::Equal,
                     }
-                    a.len().cmp(&b.len())
-                }
-                (BorrowedTerm::List(a), BorrowedTerm::Nil) => {
-                    if a.is_empty() {
-                        Ordering::Equal
-                    } else {
-                        Ordering::Greater
-                    }
-                }
-                (BorrowedTerm::Nil, BorrowedTerm::List(b)) => {
-                    if b.is_empty() {
-                        Ordering::Equal
-                    } else {
-                        Ordering::Less
-                    }
-                }
-                (
-                    BorrowedTerm::ImproperList {
-                        elements: a,
-                        tail: ta,
-                    },
-                    BorrowedTerm::ImproperList {
-                        elements: b,
-                        tail: tb,
-                    },
-                ) => {
-                    for (x, y) in a.iter().zip(b.iter()) {
-                        match x.cmp(y) {
-                            Ordering::Equal => continue,
-                            other => return other,
-                        }
-                    }
-                    a.len().cmp(&b.len()).then_with(|| ta.cmp(tb))
                 }
                 (BorrowedTerm::Binary(a), BorrowedTerm::Binary(b)) => a.cmp(b),
                 (BorrowedTerm::String(a), BorrowedTerm::String(b)) => a.cmp(b),
@@ -749,6 +715,72 @@ fn compare_magnitude_with_float(digits: &[u8], f: f64) -> Ordering {
 
 fn compare_float_bigint(f: f64, big: &BigInt) -> Ordering {
     compare_bigint_float(big, f).reverse()
+}
+
+/// Elements and tail of a list-rank term; proper lists and `[]` have no tail.
+fn list_parts<'t, 'a>(
+    t: &'t BorrowedTerm<'a>,
+) -> Option<(&'t [BorrowedTerm<'a>], Option<&'t BorrowedTerm<'a>>)> {
+    match t {
+        BorrowedTerm::Nil => Some((&[], None)),
+        BorrowedTerm::List(elements) => Some((elements, None)),
+        BorrowedTerm::ImproperList { elements, tail } => Some((elements, Some(tail))),
+        _ => None,
+    }
+}
+
+fn compare_list_like<'a>(
+    a: &[BorrowedTerm<'a>],
+    a_tail: Option<&BorrowedTerm<'a>>,
+    b: &[BorrowedTerm<'a>],
+    b_tail: Option<&BorrowedTerm<'a>>,
+) -> Ordering {
+    for (x, y) in a.iter().zip(b.iter()) {
+        match x.cmp(y) {
+            Ordering::Equal => continue,
+            other => return other,
+        }
+    }
+    match a.len().cmp(&b.len()) {
+        Ordering::Equal => match (a_tail, b_tail) {
+            (None, None) => Ordering::Equal,
+            (None, Some(t)) => BorrowedTerm::Nil.cmp(t),
+            (Some(t), None) => t.cmp(&BorrowedTerm::Nil),
+            (Some(x), Some(y)) => x.cmp(y),
+        },
+        Ordering::Less => compare_tail_with_rest(a_tail, &b[a.len()..], b_tail),
+        Ordering::Greater => compare_tail_with_rest(b_tail, &a[b.len()..], a_tail).reverse(),
+    }
+}
+
+/// One list ran out of elements: compares its tail (`None` = `[]`) with the non-empty
+/// remainder of the other list.
+fn compare_tail_with_rest<'a>(
+    tail: Option<&BorrowedTerm<'a>>,
+    rest: &[BorrowedTerm<'a>],
+    rest_tail: Option<&BorrowedTerm<'a>>,
+) -> Ordering {
+    match tail {
+        None => Ordering::Less,
+        Some(t) => match list_parts(t) {
+            Some((elements, inner_tail)) => {
+                compare_list_like(elements, inner_tail, rest, rest_tail)
+            }
+            None => {
+                // every non-list term sorts either before all lists or after all of them
+                if matches!(
+                    t,
+                    BorrowedTerm::Binary(_)
+                        | BorrowedTerm::BitBinary { .. }
+                        | BorrowedTerm::String(_)
+                ) {
+                    Ordering::Greater
+                } else {
+                    Ordering::Less
+                }
+            }
+        },
+    }
 }
 
 fn compare_owned_term_lists(a: &[OwnedTerm], b: &[OwnedTerm]) -> Ordering {
